@@ -9,10 +9,13 @@ mod c02;
 mod c03;
 mod c04;
 mod c05;
+mod c08;
 mod c09;
+mod devs;
 mod c10;
 mod c11;
 mod c12;
+mod c13;
 mod c14;
 mod c18;
 mod mp;
@@ -30,10 +33,12 @@ macro_rules! dispatch {
             "C05" => $f::<c05::C05>($($arg),*),
             "C06" => $f::<mp::C06>($($arg),*),
             "C07" => $f::<mp::C07>($($arg),*),
+            "C08" => $f::<c08::C08>($($arg),*),
             "C09" => $f::<c09::C09>($($arg),*),
             "C10" => $f::<c10::C10>($($arg),*),
             "C11" => $f::<c11::C11>($($arg),*),
             "C12" => $f::<c12::C12>($($arg),*),
+            "C13" => $f::<c13::C13>($($arg),*),
             "C14" => $f::<c14::C14>($($arg),*),
             "C18" => $f::<c18::C18>($($arg),*),
             other => {
